@@ -41,8 +41,8 @@ pub struct Invocation {
     pub finished: bool,
     /// Violations detected inside the handler (reported after the run).
     pub violation: Option<Violation>,
-    /// is_writeable() samples: (value, active stream index or 99, bytes of streams before the last fully ended?)
-    pub writeable_samples: Vec<(bool, usize)>,
+    /// is_writeable() samples: (value, active stream index or 99, input bytes read by the library at that moment)
+    pub writeable_samples: Vec<(bool, usize, usize)>,
     pub eof_then_data: bool,
 }
 
@@ -318,7 +318,11 @@ impl HState {
     fn sample_writeable(&self, req: &Req<'_>) {
         let v = req.is_writeable();
         let a = self.active.unwrap_or(99);
-        self.with(|_, inv| inv.writeable_samples.push((v, a)));
+        self.with(|w, inv| {
+            // consecutive identical samples add nothing
+            let rp = w.read_pos;
+            if inv.writeable_samples.last().map_or(true, |l| l.0 != v || l.1 != a) { inv.writeable_samples.push((v, a, rp)); }
+        });
     }
     fn record_read(&mut self, n: usize, data: &[u8], buf_len: usize) {
         if let Some(i) = self.active {
@@ -339,7 +343,11 @@ impl HState {
 async fn h_read(req: &mut Req<'_>, st: &mut HState, len: usize) -> io::Result<usize> {
     let mut buf = vec![0u8; len];
     st.ev("h_read", len as u64, 0);
-    let r = poll_fn(|cx| Pin::new(&mut *req).poll_read(cx, &mut buf)).await;
+    let r = poll_fn(|cx| {
+        let p = Pin::new(&mut *req).poll_read(cx, &mut buf);
+        if p.is_pending() { st.sample_writeable(req); }
+        p
+    }).await;
     match &r {
         Ok(n) => {
             if *n > len {
@@ -361,10 +369,14 @@ async fn h_read(req: &mut Req<'_>, st: &mut HState, len: usize) -> io::Result<us
 
 async fn h_fill(req: &mut Req<'_>, st: &mut HState) -> io::Result<usize> {
     st.ev("h_fill", 0, 0);
-    let r = poll_fn(|cx| match Pin::new(&mut *req).poll_fill_buf(cx) {
-        std::task::Poll::Ready(Ok(b)) => std::task::Poll::Ready(Ok(b.to_vec())),
-        std::task::Poll::Ready(Err(e)) => std::task::Poll::Ready(Err(e)),
-        std::task::Poll::Pending => std::task::Poll::Pending,
+    let r = poll_fn(|cx| {
+        let p = match Pin::new(&mut *req).poll_fill_buf(cx) {
+            std::task::Poll::Ready(Ok(b)) => std::task::Poll::Ready(Ok(b.to_vec())),
+            std::task::Poll::Ready(Err(e)) => std::task::Poll::Ready(Err(e)),
+            std::task::Poll::Pending => std::task::Poll::Pending,
+        };
+        if p.is_pending() { st.sample_writeable(req); }
+        p
     }).await;
     match r {
         Ok(b) => {
@@ -1160,10 +1172,16 @@ pub fn c09(cx: &mut Ctx) -> VResult {
         let n = role_streams(rp.role).len();
         if rp.role == FILTER { cx.probe("filter_role"); }
         if inv.eof.iter().any(|&e| e) { cx.probe("eof_observed"); }
-        for &(v, a) in &inv.writeable_samples {
+        for &(v, a, at) in &inv.writeable_samples {
             cx.probe(if v { "writeable_true_sampled" } else { "writeable_false_sampled" });
             if v {
                 vcheck!(n <= 1 || a == n - 1, "c09_writeable_early", "request {i} (role {}) reports writeable while the active stream index is {a} of {n}", rp.role);
+                // the parser must have arrived at the final stream: every earlier stream's terminating
+                // record (its empty record or the first record of a later stream) has been read
+                for j in 0..n.saturating_sub(1) {
+                    let reached = rp.sm.stop[j].map_or(false, |s| s + 8 <= at);
+                    vcheck!(reached, "c09_writeable_early", "request {i} reports writeable after {at} input bytes, before the end of stream {} (at {:?}) was received", role_streams(rp.role)[j], rp.sm.stop[j]);
+                }
             }
             if n <= 1 {
                 vcheck!(v, "c09_writeable_late", "request {i} with {n} input stream(s) is not writeable from the start");
